@@ -168,6 +168,19 @@ def DrawsOK (m : List (Str × Chooser)) : Str → List Nat → Prop
       | [] => False
       | r :: rs' => (1 ≤ r ∧ (r : Int) ≤ ch.max) ∧ DrawsOK m rest rs'
 
+instance decDrawsOK (m : List (Str × Chooser)) : ∀ (p : Str) (rs : List Nat), Decidable (DrawsOK m p rs)
+  | [], _ => isTrue (by simp [DrawsOK])
+  | aa :: rest, rs =>
+    match h : mapGet m [aa], rs with
+    | none, _ => isTrue (by simp [DrawsOK, h])
+    | some ch, [] => isFalse (by simp [DrawsOK, h])
+    | some ch, r :: rs' =>
+      match decDrawsOK m rest rs' with
+      | isTrue h' =>
+        if h1 : 1 ≤ r ∧ (r : Int) ≤ ch.max then isTrue (by simp only [DrawsOK, h]; exact ⟨h1, h'⟩)
+        else isFalse (by simp only [DrawsOK, h]; exact fun hh => h1 hh.1)
+      | isFalse h' => isFalse (by simp only [DrawsOK, h]; exact fun hh => h' hh.2)
+
 /-! ### random.ProteinSequence -/
 
 def proteinAlphabet : Str := "ACDEFGHIKLMNPQRSTVWY".toList
